@@ -202,6 +202,7 @@ pub fn replay(case: &Case) -> Result<Verdict, String> {
             }
             Ok(for_static!(n, go(n, &s)))
         }
+        "iterscript" => super::iter::replay("C10", case),
         k => Err(format!("unknown kind {}", k)),
     }
 }
@@ -589,4 +590,5 @@ pub fn run(run: &Run) {
     for n in 3..=6usize {
         ints(run, n);
     }
+    super::iter::run_sections(run, "C10", if run.thorough() { 10 } else { 8 });
 }
